@@ -109,16 +109,21 @@ Fixpoint flushed_after_mine (t : N) (before : nat) (pre : list ev) (st : bool) :
   | _ :: r => flushed_after_mine t before r st
   end.
 
-Definition barrier_check_mine (t : N) (before : nat) (pre post : list ev) : bool :=
+(* `slack`: on free-running threads the overflow counter is bumped by the pusher *after* its force_push displaced
+   the entry, so at the moment the requester sees its request complete every *other* producer may have one
+   displacement whose increment is not in the log yet (the requester's own increments all precede its poll). *)
+Definition barrier_check_mine (t : N) (before slack : nat) (pre post : list ev) : bool :=
   let delivered := length (filter (mine t before) (nexts pre)) in
   (* what is not in the log by now never gets there, and an overflow was counted for each *)
   negb (existsb (mine t before) (nexts post)) &&
-  Nat.leb (before - delivered) (count_over pre) &&
+  Nat.leb (before - delivered) (count_over pre + slack) &&
+  Nat.leb (before - delivered) (count_over (pre ++ post)) &&
   flushed_after_mine t before pre false.
 
 Definition c04_stress_spec (case i : sx) : bool :=
   let log := stress_events i in
   let stalled := sx_bool (sx_arg case 4) in
+  let threads := sx_nat (sx_arg case 2) in
   forallb (fun f =>
              let t := sx_n (sx_nth f 0) in
              let before := sx_nat (sx_nth f 1) in
@@ -126,7 +131,7 @@ Definition c04_stress_spec (case i : sx) : bool :=
              if Z.ltb pos 0 then stalled      (* never completed: only acceptable while the writer was held *)
              else let pre := firstn (Z.to_nat pos) log in
                   if has_drop_b pre then true
-                  else barrier_check_mine t before pre (skipn (Z.to_nat pos) log))
+                  else barrier_check_mine t before (threads - 1) pre (skipn (Z.to_nat pos) log))
           (sx_list (sx_nth i 1)).
 
 Definition c04_holds (x : sx) : sx :=
